@@ -217,7 +217,8 @@ func (r *Recorder) Fail(t *rapid.T, check, key, msg string, c any) {
 	r.mu.Lock()
 	r.pending = &Violation{Check: check, Key: key, Msg: msg, Case: raw}
 	r.mu.Unlock()
-	t.Fatalf("%s: %s", key, msg)
+	// a stable message: rapid only keeps shrinking while the failure "stays the same"
+	t.Fatalf("violation found by check %s", check)
 }
 
 // softTB lets rapid.Check report into the recorder instead of failing the go test directly.
